@@ -1,5 +1,6 @@
 import GeoVerif.Drv.Util
 import GeoVerif.Drv.C06
+import GeoVerif.Drv.C13
 import GeoVerif.Drv.C19
 import GeoVerif.Drv.C08
 import GeoVerif.Drv.C09
@@ -50,6 +51,7 @@ def handle (line : String) : String :=
     | ["bd", op] => handleBD op args
     | ["co", op] => handleCo op args
     | ["dms", op] => handleDms op args
+    | ["wk", op] => handleWK op args
     | _ => "bad-op"
 
 partial def loop (i o : IO.FS.Stream) : IO Unit := do
